@@ -26,6 +26,14 @@ CHECKS.update({
             "element-wise with a brute-force per-pixel reference; NUMBA_BOUNDSCHECK + as_strided bounds monitor on a share of the shards",
             "generated pairs over measures x windows x subpix x interval kinds x masks x bands; exact for SAD/census", "3 C02"),
 })
+CHECKS.update({
+    "C03": ("reference-model monitor (first arg-optimum over the whole array, no blocks) on synthetic volumes and at the "
+            "disparity step hook of traced pipelines; before/after comparison of the cost volume, flags and bands",
+            "shapes straddling the 100-pixel blocks, all 27 {NaN,0,1}^3 patterns, min/max, NaN/odd invalid_disparity", "3 C03"),
+    "C04": ("invariants at the step hooks of traced runs: cause oracle for bits 0/1/2/6/7, three-way equivalence before "
+            "validation, bit-ownership monitor (before ^ after within the step's owned bits) after every later step",
+            "masked pairs x windows x intervals/grids; random legal pipelines with repeated refinement/filter/validation", "3 C04"),
+})
 NOTES = {}
 
 def main():
